@@ -143,7 +143,7 @@ def declare(reg, eng):
     RELY = ["implies(old(job.state).finished(), job.state == old(job.state))", R_READY,
             "job.identifier == old(job.identifier)"]
     eng.load("Scheduler.aio_submit", "scheduler/base.py")
-    reg.contract("Scheduler.aio_submit", unreachable_ok=['return JobState.ERROR'], params=["self", "job"], types={"self": "Scheduler", "job": "Job"},
+    reg.contract("Scheduler.aio_submit", unreachable_ok=['return JobState.ERROR', 'if state is None:   [never true]'], params=["self", "job"], types={"self": "Scheduler", "job": "Job"},
                  returns="JobState", awaits=True, no_replay=True,
                  requires=["not isnone(self.xp.central)", "isstr(job.identifier)",
                            "job.state == JobState.UNSCHEDULED"],      # a Job is submitted once, right after its construction
